@@ -75,7 +75,8 @@ class Gen:
                         'guard', 'graceful'):
                 weights[key] = 0
         if not self.tasks:
-            weights['cancel'] = weights['await_task'] = 0
+            weights['await_task'] = 0
+            weights['cancel'] = weights['cancel'] * 0.3 if depth else 0
         if depth == 0:
             weights['spawn'] = 0
             weights['guard'] = 0
@@ -286,7 +287,8 @@ class Gen:
 
     def g_cancel(self, depth):
         rng = self.rng
-        step = {'op': 'cancel', 'task': rng.choice(self.tasks), 'yield': rng.random() < 0.8}
+        step = {'op': 'cancel', 'task': rng.choice(self.tasks + ['<self>']),
+                'yield': rng.random() < 0.8}
         if rng.random() < 0.5:
             step['token'] = [self.next_id('k')]
         return step
